@@ -20,11 +20,14 @@ LineOf(k) == IF k = 0 THEN <<>> ELSE LineOf((k - 1) \div NA) \o <<AlphaM[((k - 1
 
 Orders == <<0, 1, 2>>
 Tds == <<-2, -1, 0, 1, 2>>
-Lims == <<2, 256>>
+(* linelimit: far below, far above, and - codes 0 / -1 - exactly the length of the line (the longest line still
+   reordered) and one less (the shortest one that is not) *)
+Lims == <<2, 256, 0, -1>>
 
-Case(line0, order, td, lim) ==
+Case(line0, order, td, limc) ==
     LET line == line0 \o <<NL>>
         n    == Len(line)
+        lim  == IF limc = 0 THEN n ELSE IF limc = -1 THEN (IF n > 1 THEN n - 1 ELSE 1) ELSE limc
         ctx  == Ctx(line, td)
         marks == HasMarkChar(line)
         (* lines with mark characters: the operational definition (Bidi!ReorderOp); without: the declarative one, and both agree *)
@@ -49,7 +52,7 @@ Case(line0, order, td, lim) ==
 Lo == EnvN("LO", 0)
 Hi == EnvN("HI", 10)
 (* option combinations are spread over the lines so that every line meets several and every combination many lines *)
-OptsOf(k, j) == LET x == (k * 7 + j * 11) % 30 IN <<Orders[(x % 3) + 1], Tds[((x \div 3) % 5) + 1], Lims[((x \div 15) % 2) + 1]>>
+OptsOf(k, j) == LET x == (k * 7 + j * 11) % 60 IN <<Orders[(x % 3) + 1], Tds[((x \div 3) % 5) + 1], Lims[((x \div 15) % 4) + 1]>>
 NOPT == EnvN("NOPT", 4)
 
 (* shaping contexts: prev / diacritics / letter / diacritics / next *)
